@@ -108,6 +108,8 @@ pub struct Runner<'a> {
   session_no: usize,
   aborted_before: bool,
   aborted_earlier: bool,
+  /// Tasks re-executed by partial top-down sessions since the last point at which all known tasks were consistent.
+  td_partial_exec: BTreeSet<Tid>,
   /// An abort happened and no returning session has required all known tasks since.
   abort_dirty: bool,
   pub vs: Vec<Violation>,
@@ -159,7 +161,7 @@ impl<'a> Runner<'a> {
     let nres = prog.resources.len();
     Runner {
       scn, prog, prop, pie, shadow: vec![None; nres], known: BTreeSet::new(), ledger: vec![None; n], prev: vec![None; n], ever_completed: vec![false; n], stamps: vec![None], stamp_seen: BTreeMap::new(),
-      changed: BTreeSet::new(), all_consistent: true, last_td: None, last_bu_complete: false, session_no: 0, aborted_before: false, aborted_earlier: false, abort_dirty: false,
+      changed: BTreeSet::new(), all_consistent: true, last_td: None, last_bu_complete: false, session_no: 0, aborted_before: false, aborted_earlier: false, abort_dirty: false, td_partial_exec: BTreeSet::new(),
       vs: vec![], stats: Stats::default(), trace: 0xcbf2_9ce4_8422_2325, harness_error: None, reuse_and_exec: false, nontrivial: false, errors_fired: 0, crashes_fired: 0, td_after_abort_returned: 0, bu_nontrivial: false, diag_aborts: 0, trk_seen: 0,
     }
   }
@@ -299,6 +301,7 @@ impl<'a> Runner<'a> {
     let before = self.shadow.clone();
     let fault_free = fault.is_none();
     let dirty_at_start = self.abort_dirty;
+    let stale_before = self.td_partial_exec.clone();
     let res = self.execute_session(&kind, fault);
     self.session_no += 1;
     let slice: Vec<Ev> = with_sim(|s| s.log[res.start..].to_vec());
@@ -363,7 +366,7 @@ impl<'a> Runner<'a> {
         // A completely reported bottom-up build brings every known task up to date.
         let mut all: Vec<Tid> = self.known.iter().copied().collect();
         for t in roots.iter() { if !all.contains(t) { all.push(*t); } }
-        (*complete, all)
+        (*complete && stale_before.is_empty(), all)
       }
     };
     let mut expected: BTreeMap<Tid, Out> = BTreeMap::new();
@@ -380,7 +383,8 @@ impl<'a> Runner<'a> {
 
     // Bottom-up builds after an abort are claimed by no property (C03 does not quantify over aborts, C19 speaks about
     // later top-down builds) until a returning session has required all known tasks again.
-    let unclaimed_bu = matches!(kind, SessionKind::BottomUp { .. }) && dirty_at_start;
+    // ... and after a partial top-down session left requirers stale (recorded finding, decided by the probe oracle).
+    let unclaimed_bu = matches!(kind, SessionKind::BottomUp { .. }) && (dirty_at_start || !stale_before.is_empty());
     let tainted = unclaimed_bu || (!fault_free && (fault.read_err_at.is_some() || fault.write_err_at.is_some()));
     if clean.ill.is_empty() && !tainted {
       for (t, out) in res.roots_out.iter() {
@@ -429,8 +433,9 @@ impl<'a> Runner<'a> {
     match &kind {
       SessionKind::TopDown(_) => {
         let all: bool = self.known.iter().all(|t| roots.contains(t));
-        if all { self.changed.clear(); self.all_consistent = true; self.abort_dirty = false; }
+        if all { self.changed.clear(); self.all_consistent = true; self.abort_dirty = false; self.td_partial_exec.clear(); }
         else {
+          for e in slice.iter() { if let Ev::ExecStart { t, n, .. } = e { if *n > 1 { self.td_partial_exec.insert(*t); } } }
           // Resources written by tasks in a partial top-down session count as changed for later bottom-up reports.
           for e in slice.iter() { if let Ev::ResSet { res, .. } = e { if let Some(i) = prog.res_index(*res) { self.changed.insert(i); } } }
         }
@@ -446,7 +451,7 @@ impl<'a> Runner<'a> {
           if let Ev::ExecStart { n, .. } = e { if *n > 1 { reexec = true; } }
           if let Ev::ResSet { res, .. } = e { if reexec { if let Some(i) = prog.res_index(*res) { self.changed.insert(i); } } }
         }
-        if reexec { self.last_bu_complete = false; self.all_consistent = false; }
+        if reexec { self.last_bu_complete = false; self.all_consistent = false; for e in slice[bu_end..].iter() { if let Ev::ExecStart { t, n, .. } = e { if *n > 1 { self.td_partial_exec.insert(*t); } } } }
       }
     }
     true
@@ -702,6 +707,8 @@ impl<'a> Runner<'a> {
     let mut trace = self.trace;
     let mut errors_seen: Vec<u32> = vec![];
     let mut cutoff = false;
+    let mut probe_stale: BTreeSet<Tid> = BTreeSet::new();
+    let mut sig_violations: Vec<Violation> = vec![];
     let mut coarse_ignored = false;
     let mut order_candidates: Vec<(Tid, Tid)> = vec![];
 
@@ -718,6 +725,8 @@ impl<'a> Runner<'a> {
         }
         Ev::ExecStart { t, n, bottom_up } => {
           fnv(&mut trace, 0xE00 + *t as u64 * 7 + *bottom_up as u64);
+          let pass_before = pass[*t].clone();
+          let deps_before: Vec<(DepKind, Target)> = self.ledger[*t].as_ref().map(|e| e.deps.iter().map(|d| (d.kind, d.target)).collect()).unwrap_or_default();
           exec_count[*t] += 1;
           if exec_count[*t] > 1 {
             let props: &[&str] = if in_bu_phase { &["C04"] } else { &["C02"] };
@@ -763,7 +772,17 @@ impl<'a> Runner<'a> {
             v(&["C02"], "O2c-repeat-executed", format!("requiring again with nothing changed executed task {t}"));
           }
           if probe_after_bu && prev_completed {
-            v(&["C03"], "O3-probe-executed", format!("after a completely reported bottom-up build, requiring known task(s) executed task {t}"));
+            // The dependency whose inconsistency caused this execution.
+            let p = &pass_before;
+            let cause = if p.started && p.ended_incons && p.next > 0 { deps_before.get(p.next - 1).copied() } else { None };
+            let stale_by_partial_td = match cause { Some((DepKind::Require, Target::Task(u))) => executed.contains(&u) && probe_stale.contains(&u) || self.td_partial_exec.contains(&u), _ => false };
+            if stale_by_partial_td {
+              probe_stale.insert(*t);
+              sig_violations.push(Violation::new(&["C03"], "O3-probe-executed", step, format!("after a completely reported bottom-up build, requiring known task {t} executed it: its require dependency {:?} was left stale by an earlier partial top-down session that re-executed the required task", cause)).with_sig("stale-requirer-after-partial-top-down"));
+            } else {
+              probe_stale.insert(*t);
+              v(&["C03"], "O3-probe-executed", format!("after a completely reported bottom-up build, requiring known task(s) executed task {t} (cause {:?})", cause));
+            }
           }
         }
         Ev::ExecEnd { t, n, out } => {
@@ -1049,6 +1068,7 @@ impl<'a> Runner<'a> {
     if !executed.is_empty() { self.stats.add("executions", exec_count.iter().map(|c| *c as u64).sum()); }
     self.trace = trace;
     for vi in violations { if self.vs.len() < 16 { self.vs.push(vi); } }
+    for vi in sig_violations.into_iter().take(1) { if self.vs.len() < 16 { self.vs.push(vi); } }
 
     // Tracker oracles.
     self.check_tracker(step, slice, aborted);
